@@ -30,18 +30,26 @@ class SchedProp:
     def classify(self, lines, impl, crash, model):
         if crash:
             return "violation", "implementation crashed / sanitizer report: " + crash, crash
-        i = common.first_diff(impl, model)
-        a = impl[i] if i < len(impl) else "<missing>"
-        b = model[i] if i < len(model) else "<missing>"
-        fa, fb = fields(a), fields(b)
-        diff = sorted(k for k in set(fa) | set(fb) if fa.get(k) != fb.get(k))
-        cmd = lines[i] if i < len(lines) else "?"
-        if cmd.startswith("script "):
-            cmd = "script … ## " + cmd.split("## ", 1)[-1]
-        why = "line %d `%s`: implementation `%s` vs proved model `%s` (fields %s)" % (i, cmd, a, b, ",".join(diff))
-        rel = [k for k in diff if k in self.relevant]
-        if rel:
-            return "violation", why + " — " + self.what, "diff:" + "+".join(rel)
+        # look at every differing line: the first one may differ only in a field this property does
+        # not speak about while a later one shows the property itself failing
+        first_other = None
+        for i in range(max(len(impl), len(model))):
+            a = impl[i] if i < len(impl) else "<missing>"
+            b = model[i] if i < len(model) else "<missing>"
+            if a == b:
+                continue
+            fa, fb = fields(a), fields(b)
+            diff = sorted(k for k in set(fa) | set(fb) if fa.get(k) != fb.get(k))
+            cmd = lines[i] if i < len(lines) else "?"
+            if cmd.startswith("script "):
+                cmd = "script … ## " + cmd.split("## ", 1)[-1]
+            why = "line %d `%s`: implementation `%s` vs proved model `%s` (fields %s)" % (i, cmd, a, b, ",".join(diff))
+            rel = [k for k in diff if k in self.relevant]
+            if rel:
+                return "violation", why + " — " + self.what, "diff:" + "+".join(rel)
+            if first_other is None:
+                first_other = (why, diff)
+        why, diff = first_other
         return "harmless", why + " — differs only in fields this property does not speak about", "diff-other:" + "+".join(diff)
 
 
